@@ -621,7 +621,15 @@ func ruleR042(c *Ctx) {
 				}
 				return true
 			}
+			isNext := false
 			if id, ok := ast.Unparen(call.Fun).(*ast.Ident); ok && nextVars[info.ObjectOf(id)] {
+				isNext = true
+			}
+			// p.nextParserCall(level)(tokenizer, idents): the result is called at once
+			if inner, ok := ast.Unparen(call.Fun).(*ast.CallExpr); ok && isCallTo(info, inner, nextCallM) {
+				isNext = true
+			}
+			if isNext {
 				for _, t := range nextTargets {
 					edges = append(edges, edge{from: from, to: t.fn, site: call, consumes: dominatedByNext(call), levelUp: t.levelUp})
 				}
